@@ -4,7 +4,9 @@ package forward
 import (
 	"net/http"
 	"net/http/httputil"
+	"net/textproto"
 	"net/url"
+	"strings"
 
 	"github.com/vulcand/oxy/v2/utils"
 )
@@ -15,6 +17,7 @@ func New(passHostHeader bool) *httputil.ReverseProxy {
 
 	return &httputil.ReverseProxy{
 		Director: func(request *http.Request) {
+			removeConnectionHeaders(request.Header)
 			modifyRequest(request)
 
 			h.Rewrite(request)
@@ -24,6 +27,33 @@ func New(passHostHeader bool) *httputil.ReverseProxy {
 			}
 		},
 		ErrorHandler: utils.DefaultHandler.ServeHTTP,
+	}
+}
+
+// removeConnectionHeaders drops the headers the client listed in its Connection header before the
+// forwarding headers are set. httputil.ReverseProxy removes them only after the director has run,
+// so a client could strip X-Forwarded-* and X-Real-Ip from the outgoing request by naming them in
+// Connection. The processed tokens are taken out of the Connection header (except "Upgrade",
+// which the proxy still needs to see) so that they are not applied a second time.
+func removeConnectionHeaders(h http.Header) {
+	var keep []string
+	for _, f := range h[Connection] {
+		for _, sf := range strings.Split(f, ",") {
+			sf = textproto.TrimString(sf)
+			if sf == "" {
+				continue
+			}
+			if strings.EqualFold(sf, Upgrade) {
+				keep = append(keep, sf)
+				continue
+			}
+			h.Del(sf)
+		}
+	}
+	if len(keep) > 0 {
+		h[Connection] = keep
+	} else {
+		h.Del(Connection)
 	}
 }
 
